@@ -127,6 +127,37 @@ def frame_dict(h, w, c):
     return d
 
 
+def cycle_of(h, w, got):
+    """The edge set (frozenset of sorted point pairs) described by a full frame dict if it is one simple cycle or empty, else None."""
+    es = set()
+    for k, v in got.items():
+        if v is not True and v is not False:
+            return None
+        if v:
+            y, x = map(int, k[1:].split(","))
+            es.add(((y, x), (y, x + 1)) if k[0] == "h" else ((y, x), (y + 1, x)))
+    if not es:
+        return frozenset()
+    deg, adj = {}, {}
+    for a, b in es:
+        for p, q in ((a, b), (b, a)):
+            deg[p] = deg.get(p, 0) + 1
+            adj.setdefault(p, []).append(q)
+    if any(d != 2 for d in deg.values()):
+        return None
+    st = [next(iter(adj))]
+    seen = {st[0]}
+    while st:
+        p = st.pop()
+        for q in adj[p]:
+            if q not in seen:
+                seen.add(q)
+                st.append(q)
+    if len(seen) != len(adj):
+        return None
+    return frozenset(tuple(sorted(e)) for e in es)
+
+
 def frame_got(h, w, gf):
     d = {}
     for y in range(h):
@@ -178,8 +209,9 @@ class Spec:
 PUZZLES = {}
 
 
-def register(name, gen, truth, solve):
+def register(name, gen, truth, solve, check_model=None):
     PUZZLES[name] = Spec(name, gen, truth, solve)
+    PUZZLES[name].check_model = check_model  # (instance, full answer dict) -> True / False (rule-obeying grid or not); None = no validator
 
 
 # ======================================================================================= slitherlink
@@ -345,7 +377,27 @@ def _nk_solve(i):
     return is_sat, grid_got(h, w, iw)
 
 
-register("nurikabe", _nk_gen, _nk_truth, _nk_solve)
+def _nk_check(i, got):
+    h, w, p = i["h"], i["w"], i["p"]
+    if any(v is not True and v is not False for v in got.values()):
+        return False
+    white = {tuple(map(int, k.split(","))) for k, v in got.items() if v}
+    black = set(allc(h, w)) - white
+    if not conn(black):
+        return False
+    if any(all(q in black for q in ((y, x), (y + 1, x), (y, x + 1), (y + 1, x + 1))) for y in range(h - 1) for x in range(w - 1)):
+        return False
+    if any(p[y][x] != 0 and (y, x) in black for y, x in allc(h, w)):
+        return False
+    low = i.get("unknown_low")
+    for c in comps(white):
+        cl = [p[y][x] for (y, x) in c if p[y][x] != 0]
+        if len(cl) != 1 or (cl[0] > 0 and cl[0] != len(c)) or (cl[0] == -1 and low is not None and len(c) < low):
+            return False
+    return True
+
+
+register("nurikabe", _nk_gen, _nk_truth, _nk_solve, _nk_check)
 
 
 # ======================================================================================= generic shading puzzles
@@ -356,7 +408,14 @@ def shading(name, gen, valid, solve, readings=("std",)):
         for r in readings:
             out[r] = [set_sol(h, w, S) for S in cellsets(h, w) if valid(i, S, r)]
         return out
-    register(name, gen, truth, solve)
+
+    def check_model(i, got):
+        # a full assignment of the shading: rule-obeying under at least one admitted reading
+        S = {tuple(map(int, k.split(","))) for k, v in got.items() if v is True}
+        if any(v is not True and v is not False for v in got.values()):
+            return False
+        return any(valid(i, S, r) for r in readings)
+    register(name, gen, truth, solve, check_model)
 
 
 # ---- heyawake
@@ -668,7 +727,9 @@ def _put_truth(i):
     return {"std": sols}
 
 
-register("putteria", _put_gen, _put_truth, _put_solve)
+register("putteria", _put_gen, _put_truth, _put_solve,
+         lambda i, got: all(v is True or v is False for v in got.values())
+         and _put_valid(i, {tuple(map(int, k.split(","))) for k, v in got.items() if v}, "std"))
 
 
 # ---- nurimisaki
@@ -949,7 +1010,11 @@ def looppuz(name, gen, valid, solve, shapes=None):
     def truth(i):
         h, w = i["h"], i["w"]
         return {"std": [frame_dict(h, w, c) for c in all_cycles(h, w) if valid(i, c)]}
-    register(name, gen, truth, solve)
+
+    def check_model(i, got):
+        c = cycle_of(i["h"], i["w"], got)
+        return c is not None and bool(valid(i, c))
+    register(name, gen, truth, solve, check_model)
 
 
 def _masyu_gen(rng, big):
@@ -1149,7 +1214,34 @@ def _view_solve(i):
     return is_sat, got
 
 
-register("view", _view_gen, _view_truth, _view_solve)
+def _view_check(i, got):
+    h, w, p = i["h"], i["w"], i["p"]
+    M = set()
+    for c in allc(h, w):
+        m = got.get(f"m{c[0]},{c[1]}")
+        if m is not True and m is not False:
+            return False
+        if m:
+            M.add(c)
+    if not conn(M):
+        return False
+    for y, x in allc(h, w):
+        k = 0
+        if (y, x) in M:
+            for dy, dx in N4:
+                q = (y + dy, x + dx)
+                while 0 <= q[0] < h and 0 <= q[1] < w and q not in M:
+                    k += 1
+                    q = (q[0] + dy, q[1] + dx)
+        n = got.get(f"n{y},{x}")
+        if type(n) is not int or n != k:
+            return False
+        if p[y][x] >= 0 and ((y, x) not in M or p[y][x] != k):
+            return False
+    return all(not (q in M and got[f"n{q[0]},{q[1]}"] == got[f"n{c[0]},{c[1]}"]) for c in M for q in ((c[0] + 1, c[1]), (c[0], c[1] + 1)))
+
+
+register("view", _view_gen, _view_truth, _view_solve, _view_check)
 
 
 # ======================================================================================= building
@@ -1349,7 +1441,21 @@ def _sudoku_solve(i):
     return is_sat, grid_got(s, s, ans)
 
 
-register("sudoku", _sudoku_gen, _sudoku_truth, _sudoku_solve)
+def _sudoku_check(i, got):
+    n = i["n"]
+    s_ = n * n
+    g = [[got.get(f"{y},{x}") for x in range(s_)] for y in range(s_)]
+    if any(type(v) is not int or not 1 <= v <= s_ for r in g for v in r):
+        return False
+    full = set(range(1, s_ + 1))
+    if any(set(r) != full for r in g) or any({g[y][x] for y in range(s_)} != full for x in range(s_)):
+        return False
+    if any({g[by * n + dy][bx * n + dx] for dy in range(n) for dx in range(n)} != full for by in range(n) for bx in range(n)):
+        return False
+    return all(i["p"][y][x] in (0, g[y][x]) for y in range(s_) for x in range(s_))
+
+
+register("sudoku", _sudoku_gen, _sudoku_truth, _sudoku_solve, _sudoku_check)
 
 
 # ======================================================================================= partitions (fillomino, compass, fivecells)
@@ -1448,7 +1554,35 @@ def _fil_solve(i):
     return is_sat, grid_got(i["h"], i["w"], arr)
 
 
-register("fillomino", _fil_gen, _fil_truth, _fil_solve)
+def _fil_check(i, got):
+    h, w, p = i["h"], i["w"], i["p"]
+    g = {c: got.get(f"{c[0]},{c[1]}") for c in allc(h, w)}
+    if any(type(v) is not int or v < 1 for v in g.values()):
+        return False
+    # blocks = maximal connected areas of equal numbers (equal-sized blocks may not touch, so this IS the partition)
+    seen = set()
+    part = []
+    for c in allc(h, w):
+        if c in seen:
+            continue
+        comp, st = {c}, [c]
+        while st:
+            y, x = st.pop()
+            for dy, dx in N4:
+                q = (y + dy, x + dx)
+                if q in g and q not in comp and g[q] == g[c]:
+                    comp.add(q)
+                    st.append(q)
+        seen |= comp
+        if len(comp) != g[c]:
+            return False
+        part.append(frozenset(comp))
+    if any(p[y][x] >= 1 and g[(y, x)] != p[y][x] for y, x in allc(h, w)):
+        return False
+    return (not i.get("checkered")) or _two_colourable(part)
+
+
+register("fillomino", _fil_gen, _fil_truth, _fil_solve, _fil_check)
 
 
 def _cmp_gen(rng, big):
